@@ -99,7 +99,9 @@ def main(argv=None):
                 undecided.append(f"{r['contract']}[{r['case']}]: outside the modelled subset: {u}")
         if r["paths"] and not r.get("reached") and not r["unsupported"]:
             errors.append(f"{r['contract']}[{r['case']}]: no path reaches the post-condition (vacuous)")
-        if r.get("reached") and not r.get("covered"):
+        if r.get("reached") and not r.get("covered") and all(o["status"] == "proved" for o in r["obligations"]):
+            # (a path made contradictory by assuming a safety condition that was just refuted is not a vacuous contract:
+            #  the refuted obligation is reported instead)
             errors.append(f"{r['contract']}[{r['case']}]: hypotheses unsatisfiable on every path (vacuous)")
         # aggregate per obligation name
         agg = {}
@@ -248,10 +250,10 @@ def main(argv=None):
         json.dump(ev, f, indent=1, default=str)
     print(f"{prop}: obligations {ob_proved}/{ob_total} discharged, contracts {len(cov['contracts'])}, cases {len(results)}, "
           f"rtc evaluations {rtc_eval}, known findings {len(known_hits)}, violations {len(seen)}, undecided {len(undecided)}, wall {wall:.1f}s")
+    if seen:
+        return 1   # a violation stays a violation, whatever else went wrong in the run
     if errors:
         return 3
-    if seen:
-        return 1
     if undecided:
         return 2
     return 0
